@@ -7,6 +7,8 @@ ID = "C20"
 AUDIT_IMPORTS = ["PortusModel.Props.C20Layout", "PortusModel.Lemmas.Accept2"]
 THEOREMS = ["Portus.Lang.Typing.well_typed_accepted", "Portus.Lang.Typing.well_typed_accepted_upd", "Portus.Lang.Typing.well_typed_image",
             "Portus.Lang.Typing.wtSrc_accepted", "Portus.Lang.Typing.richSrc_accepted", "Portus.Lang.Typing.wellTyped_eq",
+            "Portus.Lang.Typing.wellTyped_mono", "Portus.Lang.Typing.compile_value", "Portus.Lang.Typing.nestedSrc_accepted",
+            "Portus.Lang.Typing.nestedLocalSrc_accepted", "Portus.Lang.Typing.hazardSrc_accepted", "Portus.Lang.Typing.finding_known_target_type",
             "Portus.Lang.Typing.finding_bare_bool_condition", "Portus.Lang.Typing.finding_guarded_target",
             "Portus.C20.layout_same_image", "Portus.C20.comments_same_program", "Portus.C20.rendering_parses",
             "Portus.Lang.parse_render", "Portus.Lang.layout_independent", "Portus.Lang.comments_only_add_none",
@@ -36,9 +38,12 @@ LEVEL_TEXT = ("PARTIAL. Machine-checked proof (Lean 4) of both halves of the pro
               "merge), any spelling of each operator, any numeral of each number, comment lines before events and among statements - "
               "parses back to that tree (parse_render), hence all renderings compile to the same image and register mapping "
               "(layout_same_image), comments never change the program (comments_same_program), and the uid does not either. Partial "
-              "because: WellTyped covers the stratified language (a bind nested as a value is outside it) and carries two named "
-              "restrictions that mirror the compiler (a bare boolean VARIABLE is not accepted as a condition - noBareBoolCondition; "
-              "if/!if/ewma only into declared Report/control variables - guardedTargetDeclared); identifiers the tokenizer splits "
+              "because: WellTyped covers plain binds nested as values (typeOfV threads the environment; hazardous nestings included, since "
+              "the compiler accepts them) but not if/!if/ewma nested as values nor binds inside conditions, which the compiler also "
+              "accepts; and it carries three named restrictions that mirror the compiler (a bare boolean VARIABLE is not accepted as a "
+              "condition - noBareBoolCondition; if/!if/ewma only into declared Report/control variables - guardedTargetDeclared; the value "
+              "of a bind to a known variable has the variable's recorded type - knownTargetType); "
+              "identifiers the tokenizer splits "
               "(prefixes true/false/volatile/digit/__) are excluded from the rendering relation. The metamorphic differential check "
               "ties it to the real code: generated programs x layouts through the real compiler must be accepted and byte-identical, "
               "every generated program the Lean check calls well typed must be accepted by the real compiler, ASTs are compared.")
